@@ -49,6 +49,18 @@ class FixCustomInit(Exception):
         self.code = code
 
 
+class _TrapMixin:
+    """Not an exception: a bookkeeping mixin in front of the exception base (its constructor must never be called alone)."""
+
+    def __init__(self, *a: Any, **k: Any) -> None:
+        CALLS.append("mixin")
+
+
+class FixMixed(_TrapMixin, ValueError):
+    def __init__(self, code: int, msg: str, extra: str) -> None:      # never matches the stored arguments (0..2 of them)
+        ValueError.__init__(self, f"{code}: {msg} {extra}")
+
+
 class FixKwOnly(Exception):
     def __init__(self, *, detail: str = "d") -> None:
         super().__init__(detail)
@@ -108,7 +120,7 @@ def install_fixture() -> None:
     sub.Exc2 = FixExc  # type: ignore[attr-defined]
     m.sub = sub  # type: ignore[attr-defined]
     sys.modules[FIX] = m
-    for cls in (FixExc, FixBaseOnly, FixCustomInit, FixKwOnly, FixMid, Outer, _TrapCls, FixEqHash, FixDcErr):
+    for cls in (FixExc, FixBaseOnly, FixCustomInit, FixKwOnly, FixMid, Outer, _TrapCls, FixEqHash, FixDcErr, FixMixed):
         cls.__module__ = FIX
         setattr(m, cls.__name__, cls)
     FixExc.__qualname__ = "FixExc"
@@ -140,7 +152,10 @@ def install_fixture() -> None:
 TARGETS: Dict[str, Any] = {
     "exc": (FIX, "Exc", "exc"), "nested_exc": (FIX, "Outer.InnerExc", "exc"), "builtin_exc": ("builtins", "ValueError", "exc"),
     "baseonly": (FIX, "FixBaseOnly", "exc"), "custominit": (FIX, "FixCustomInit", "exc_noinit"),
-    "sub_exc": (FIX, "sub.Exc2", "exc"),
+    "sub_exc": (FIX, "sub.Exc2", "exc"), "mixed": (FIX, "FixMixed", "exc_noinit"),
+    # objects that live in taskiq's own serialization module are no more trustworthy than any other non-exception
+    "own_func": ("taskiq.serialization", "safe_repr", "func"), "own_cls": ("taskiq.serialization", "ExceptionRepr", "cls"),
+    "own_factory": ("taskiq.serialization", "create_exception_cls", "func"), "own_exc_mod_func": ("taskiq.exceptions", "root", "module"),
     "func": (FIX, "func", "func"), "cls": (FIX, "Cls", "cls"), "inst": (FIX, "inst", "inst"), "module": (FIX, "sub", "module"),
     "nested_cls": (FIX, "Outer.InnerCls", "cls"), "nested_func": (FIX, "Outer.method", "func"),
     "os_system": ("os", "system", "func"), "eval": ("builtins", "eval", "func"), "object": ("builtins", "object", "cls"),
